@@ -508,13 +508,15 @@ def unloadSlots (f : Frame) (c : Ctr) : Ctr :=
   let c := c.remAll (slotItems f.args)
   if f.isScript then c.remAll (slotItems f.static) else c
 
-/-- handleException (vm.go:1974-2004) once the handler is known: `k` contexts are unloaded, the
-VM's stack becomes the handler context's stack (nothing is removed from a dropped stack!), a CATCH
-gets the exception pushed. -/
+/-- handleException (vm.go:1978-2013) once the handler is known: `k` contexts are unloaded; a dropped
+context that OWNS its evaluation stack has it cleared (`ctx.sc.estack.Clear()`, every element removed
+from the counter, bottom first — the repair 65b0965 of the former finding unwind-across-estack; contexts
+sharing a stack own none), the VM's stack becomes the handler context's stack, a CATCH gets the
+exception pushed. -/
 def unwindFrames : Nat → List Frame → Ctr → Option (List Frame × Ctr)
   | 0, fs, c => some (fs, c)
   | _ + 1, [], _ => none
-  | k + 1, f :: fs, c => unwindFrames k fs (unloadSlots f c)
+  | k + 1, f :: fs, c => unwindFrames k fs ((unloadSlots f c).remAll (slotItems f.own).reverse)
 
 def unwind (s : St) (exc : Item) (k : Nat) (catch_ : Bool) : Option St :=
   match unwindFrames k s.frames s.c with
@@ -639,19 +641,6 @@ def step (s : St) (op : Op) (unw : Option (Nat × Bool)) (extFault : Bool) : Opt
     match s'? with
     | none => none
     | some s' => if s'.c.refs > maxStackSize then none else some s'   -- vm.go:734
-
-/-! ### the ghost list of exception unwinding -/
-
-/-- what the evaluation stacks owned by the first `k` frames hold: the items that `handleException`
-(vm.go:1985-1990) drops WITHOUT discounting when it unloads those `k` contexts -/
-def droppedOf (k : Nat) (fs : List Frame) : List Item := (fs.take k).flatMap (fun f => slotItems f.own)
-
-/-- the items of the evaluation stacks that this step's exception unwinding drops (none if the
-instruction does not raise or no handler is found) -/
-def droppedBy (s : St) (op : Op) (unw : Option (Nat × Bool)) : List Item :=
-  match exec op s, unw with
-  | some r, some (k, _) => if r.raised.isSome then droppedOf k r.s.frames else []
-  | _, _ => []
 
 /-! ### observations -/
 
